@@ -62,7 +62,8 @@ CHECKS = {
          'reports byte for byte what it received.',
          'A blocking write accepts the whole buffer when the peer reads.', '4/C08'),
  'C11': ('Theorems C11.*: logs_are_transcript (logfile = reads and sends in operation order, logfile_read / logfile_send the two projections), '
-         'logfile_read_eq_delivered, every_write_flushed. Tie: recording log objects (plain, and looking like an interactive text stream) on all transports and log combinations, types checked; interact() sessions; '
+         'logfile_read_eq_delivered, every_write_flushed, send_logged_once_under_write_faults (Sess.runF: whatever a non-blocking descriptor does with each write - takes it, refuses it, takes a prefix - the logs are those of the fault-free history), '
+         'interact_logs_both, interact_read_log_is_decoded_stream. Tie: recording log objects (plain, and looking like an interactive text stream) on all transports and log combinations, types checked; interact() sessions; '
          'descriptors that refuse or shorten a write (each request logged once).',
          'Log objects are only observed through write() and flush().', '4/C11'),
  'C09': ('Theorems C09.* over the life-cycle model (kernel signal/wait world + ptyprocess + spawn objects): reachable_inv (induction over every op sequence), '
